@@ -197,6 +197,8 @@ static int HIvalid_magic(hdf_file_t file);
 
 static int HIextend_file(filerec_t *file_rec);
 
+static void HIrefresh_new(accrec_t *access_rec);
+
 static funclist_t *HIget_function_table(accrec_t *access_rec);
 
 static int HIupdate_version(int32);
@@ -1015,6 +1017,7 @@ Hsetlength(int32 aid, int32 length)
         HGOTO_ERROR(DFE_ARGS, FAIL);
 
     /* Check whether we are allowed to change the length */
+    HIrefresh_new(access_rec);
     if (access_rec->new_elem != TRUE)
         HGOTO_ERROR(DFE_ARGS, FAIL);
 
@@ -1283,6 +1286,7 @@ Hread(int32 access_id, int32 length, void *data)
         HGOTO_ERROR(DFE_ARGS, FAIL);
 
     /* Don't allow reading of "new" elements */
+    HIrefresh_new(access_rec);
     if (access_rec->new_elem == TRUE)
         HGOTO_ERROR(DFE_READERROR, FAIL);
 
@@ -1378,6 +1382,7 @@ Hwrite(int32 access_id, int32 length, const void *data)
 
     /* check for a "new" element and make it appendable if so.
        Does this mean every element is by default appendable? */
+    HIrefresh_new(access_rec);
     if (access_rec->new_elem == TRUE) {
         Hsetlength(access_id, length); /* make the initial chunk of data */
         access_rec->appendable = TRUE; /* make it appendable */
@@ -2221,6 +2226,23 @@ HPend(void)
     HAshutdown();
     tbbt_shutdown();
 } /* end HPend() */
+
+/*--------------------------------------------------------------------------
+ HIrefresh_new -- "new" (no offset/length yet) is a property of the element's DD, not of
+ one access record: another access record on the same element may have given it a length
+ since this one was opened.
+--------------------------------------------------------------------------*/
+static void
+HIrefresh_new(accrec_t *access_rec)
+{
+    int32 off = INVALID_OFFSET;
+    int32 len = INVALID_LENGTH;
+
+    if (access_rec->new_elem == TRUE && !access_rec->special &&
+        HTPinquire(access_rec->ddid, NULL, NULL, &off, &len) != FAIL &&
+        !(off == INVALID_OFFSET && len == INVALID_LENGTH))
+        access_rec->new_elem = FALSE;
+}
 
 /*--------------------------------------------------------------------------
 NAME
